@@ -25,7 +25,7 @@ from ..recipes import ref as R
 from .c06 import LP_METHODS, NLP_METHODS, boundary_problem
 
 LEVEL = "exploration"
-BUDGET_S = {"quick": 85, "thorough": 1500}
+BUDGET_S = {"quick": 420, "thorough": 1500}
 N_RANDOM = {"quick": 16, "thorough": 1000}
 
 HD = [
